@@ -41,7 +41,7 @@ def parse_module(path):
             if body.startswith('attach '):
                 mod['attach'] = body[7:].strip()
             elif body.startswith('contract '):
-                parts = [p.strip() for p in body[9:].split('::')]
+                parts = [p.strip() for p in body[9:].split(' :: ')]
                 cur = {'file': parts[0], 'path': parts[1:], 'attrs': []}
                 mod['contracts'].append(cur)
             elif body.startswith('#['):
